@@ -27,7 +27,8 @@ const rule = "case = a handler stack: 0..3 application middleware, 0..3 nested g
 
 var assumptions = []string{
 	"reading of the statement for an explicit Next(): it starts the next handler unless the request context is cancelled at that moment (then it starts nothing), also after a write - 'the remainder runs as far as it gets', and after that handler returns the chain does not advance on its own because something has been written; this is what the repository's own TestContext_Next / TestFlame_EarlyWrite / TestContext_RequestContextCancel show",
-	"what happens to the chain after a panic crossed run() and was recovered by an outer handler is not compared (the statement does not say)",
+	"what happens to the chain after a panic crossed run() and was recovered by an outer handler is not compared (the statement does not say); neither is what a Flame without Recovery does with a panic nobody recovers",
+	"'the request context' is the context of the request as the chain sees it at that moment: a handler that installs another context on the request (c.Request().Request = r.WithContext(...)) changes it, a request that arrives already cancelled starts no handler",
 	"handlers are closures of the shapes func(Context) and func(Context) <result>; both the fast-invoker wrapping and the reflective path are exercised",
 	"a panic that no handler recovers escapes ServeHTTP in the implementation and in the interpreter alike; only the trace up to it is compared",
 }
@@ -68,6 +69,8 @@ type Case struct {
 	// AutoHeadGet: the route is declared with Get while AutoHead is on (GET and
 	// HEAD requests then run the same chain) instead of with Any.
 	AutoHeadGet bool `json:"autohead_get,omitempty"`
+	// PreCancelled: the request arrives with a context that is cancelled already.
+	PreCancelled bool `json:"arrives_cancelled,omitempty"`
 }
 
 func (c Case) groupPath(d int) string {
@@ -216,7 +219,7 @@ func (m *interp) exec(i int, h *H) {
 }
 
 func reference(c Case) (res result) {
-	m := &interp{hs: c.flat(), action: c.Action}
+	m := &interp{hs: c.flat(), action: c.Action, cancelled: c.PreCancelled}
 	defer func() {
 		if c.Method == "HEAD" {
 			res.Body = "" // HEAD forwards no body bytes; everything else is the same
@@ -383,6 +386,9 @@ func real(c Case) (res result) {
 		ctx, cf := gocontext.WithCancel(gocontext.Background())
 		cancel = cf
 		defer cf()
+		if c.PreCancelled {
+			cf()
+		}
 		defer func() {
 			for _, f := range later {
 				f()
@@ -568,10 +574,15 @@ func checkCase(c Case) (out evid.Outcome) {
 	if recovered {
 		return out
 	}
-	if got.Escaped != want.Escaped {
-		return fail(out, "escape", "panic escaped=%v, interpreter says %v; program %s", got.Escaped, want.Escaped, js(c))
+	// what a Flame without Recovery does with a handler's panic is not part of the
+	// statement: the trace up to the panic has been compared, nothing else is
+	if want.Escaped {
+		return out
 	}
-	if !want.Escaped && (got.Status != want.Status || got.Body != want.Body) {
+	if got.Escaped {
+		return fail(out, "escape", "a panic escaped ServeHTTP although no handler of the program panics; program %s", js(c))
+	}
+	if got.Status != want.Status || got.Body != want.Body {
 		return fail(out, "response", "status %d body %q, interpreter gives status %d body %q; program %s", got.Status, got.Body, want.Status, want.Body, js(c))
 	}
 	return out
@@ -615,7 +626,7 @@ func genH(t *rapid.T) H {
 		case k < 17:
 			h.Ops = append(h.Ops, "c")
 		case k < 18:
-			h.Ops = append(h.Ops, []string{"d", "d", "t", "l", "l", "f"}[rapid.IntRange(0, 5).Draw(t, "dk")])
+			h.Ops = append(h.Ops, []string{"d", "d", "t", "l", "l"}[rapid.IntRange(0, 4).Draw(t, "dk")])
 		default:
 			h.Ops = append(h.Ops, "p")
 		}
@@ -649,6 +660,7 @@ func genCase(t *rapid.T) Case {
 	c.ReaderFrom = rapid.Bool().Draw(t, "readerfrom")
 	c.Wrapper = rapid.IntRange(0, 3).Draw(t, "wrapper") == 0
 	c.AutoHeadGet = rapid.IntRange(0, 3).Draw(t, "autoheadget") == 0
+	c.PreCancelled = rapid.IntRange(0, 11).Draw(t, "precancelled") == 0
 	if len(c.Groups) > 0 && rapid.IntRange(0, 3).Draw(t, "emptygroup") == 0 {
 		c.EmptyGroupPath = rapid.IntRange(1, 1<<len(c.Groups)-1).Draw(t, "emptymask")
 	}
